@@ -140,6 +140,7 @@ fn gen_injection(seed: u64) -> Scenario {
             head,
             tail: if complete { Some(hunks.len() as u64) } else { None },
             hunks,
+            tail_form: if r.chance(1, 4) { 1 + r.below(2) as u8 } else { 0 },
         });
     }
     let mut env = draw_env(&mut r);
